@@ -98,15 +98,6 @@ Qed.
 
 (** ---- parents of CREATE / RENAME ------------------------------------------------------ *)
 
-Lemma exec_ins_mailbox d n t :
-  ready d = true ->
-  exec d (MInsMailbox n t) = opt_st d (option_map fst (create_mailbox_row (d_st d) n t)).
-Proof.
-  intros Hr. unfold exec. unfold ready in Hr. apply andb_true_iff in Hr. destruct Hr as [Hf Hs].
-  rewrite Hf. apply Nat.leb_le in Hs. unfold NTABLES in Hs.
-  replace (1 <=? d_schema d)%nat with true by (symmetry; apply Nat.leb_le; lia). reflexivity.
-Qed.
-
 Lemma parents_refines ps t : forall d,
   ready d = true ->
   run_steps d (parent_steps (d_st d) ps t) = with_st d (after_parents (d_st d) ps t).
@@ -116,9 +107,21 @@ Proof.
   - unfold after_parents in *. cbn [parent_steps fold_left].
     destruct (find_name (d_st d) p); [apply IH; auto|].
     destruct (create_mailbox_row (d_st d) p t) as [[s' i]|] eqn:Cr; [|apply IH; auto].
-    unfold run_steps. cbn [fold_left]. rewrite exec_ins_mailbox, Cr by auto. cbn [option_map fst opt_st].
-    pose proof (IH (with_st d s')) as X. cbn [d_st with_st] in X. unfold run_steps in X.
+    rewrite run_steps_app, (create_steps_refines d p t s' i Hr Cr).
+    pose proof (IH (with_st d s')) as X. cbn [d_st with_st] in X.
     rewrite X by (rewrite ready_with_st; auto). reflexivity.
+Qed.
+
+(** Model/Ops.v's [create_parents] (one loop that skips the empty path and the
+    case variants of INBOX) is the fold over the filtered list [parents_of] *)
+Lemma create_parents_eq s name t :
+  create_parents s name t = (after_parents s (parents_of name) t, true).
+Proof.
+  unfold create_parents, parents_of, after_parents. destruct (contains_byte name SLASH); [|reflexivity].
+  f_equal. generalize (parent_paths name). intros ps. revert s.
+  induction ps as [|p r IH]; intros s; [reflexivity|].
+  cbn [fold_left filter]. destruct p as [|c p']; cbn [skip_parent negb]; [apply IH|].
+  destruct (equal_fold (c :: p') INBOX); cbn [negb]; [apply IH|]. cbn [fold_left]. apply IH.
 Qed.
 
 Lemma ready_file_schema d : ready d = true -> d_file d && (1 <=? d_schema d)%nat = true.
@@ -132,12 +135,12 @@ Qed.
 Lemma base_refines d o :
   ready d = true -> base_ok o = true ->
   NoDup (map lk_id (links (d_st d))) ->
-  run_steps d (base_steps (d_st d) o) = with_st d (fst (step7 (d_st d) o)).
+  run_steps d (base_steps (d_st d) o) = with_st d (fst (step (d_st d) o)).
 Proof.
   intros Hr Hb N. set (s := d_st d).
   assert (Hid : d = with_st d s) by (symmetry; apply with_st_id).
   destruct o as [f t|f fl|sel set dest|sel set dest|sel set mode fl|sel|sel|n t|n|a b t];
-    try discriminate; cbn [base_steps step7 step].
+    try discriminate; cbn [base_steps step].
   - (* uid copy *)
     unfold op_uidcopy. fold s. destruct (resolve_uids s sel set) as [|u us]; [exact Hid|].
     destruct (find_name s dest) as [dm|]; [|exact Hid].
@@ -152,15 +155,17 @@ Proof.
   - (* expunge *) unfold op_expunge. cbn [fst]. now apply expunge_refines.
   - (* close *) unfold op_close, op_expunge. cbn [fst]. now apply expunge_refines.
   - (* create *)
-    unfold op_create7. fold s. destruct (trim_suffix n [SLASH]) as [|c r] eqn:En; [exact Hid|].
+    unfold op_create. fold s. destruct (trim_suffix n [SLASH]) as [|c r] eqn:En; [exact Hid|].
     set (name := c :: r) in *.
     destruct (str_eqb (to_upper name) INBOX); [exact Hid|].
+    destruct (is_role_ns name); [exact Hid|].
     destruct (find_name s name); [exact Hid|].
+    rewrite create_parents_eq. cbn [fst].
     rewrite run_steps_app. unfold s. rewrite parents_refines by auto. fold s.
     set (s1 := after_parents s (parents_of name) t).
     destruct (create_mailbox_row s1 name t) as [[s2 i]|] eqn:Cr; [|reflexivity].
-    unfold run_steps. cbn [fold_left]. rewrite exec_ins_mailbox by (rewrite ready_with_st; auto).
-    cbn [d_st with_st]. rewrite Cr. reflexivity.
+    pose proof (create_steps_refines (with_st d s1) name t s2 i) as X. cbn [d_st with_st] in X.
+    rewrite X; auto.
   - (* delete *)
     unfold op_delete. fold s. destruct n as [|c r]; [exact Hid|]. set (name := c :: r).
     destruct (str_eqb (to_upper name) INBOX); [exact Hid|].
@@ -168,23 +173,29 @@ Proof.
     destruct (children s name); [|exact Hid].
     destruct (existsb _ _); [exact Hid|]. reflexivity.
   - (* rename *)
-    unfold op_rename7. fold s.
+    unfold op_rename. fold s.
     destruct a as [|ca ra]; [exact Hid|]. destruct b as [|cb rb]; [exact Hid|].
     set (a := ca :: ra) in *. set (b := cb :: rb) in *.
+    destruct (is_role_ns b); [exact Hid|].
     destruct (str_eqb (to_upper b) INBOX); [exact Hid|].
     destruct (str_eqb (to_upper a) INBOX).
     + (* RENAME INBOX: parents and the new row autocommit, then one transaction *)
-      unfold rename_inbox7. destruct (find_name s b); [exact Hid|].
+      unfold rename_inbox. destruct (find_name s b); [exact Hid|].
       destruct (find_name s INBOX) as [ib|]; [|exact Hid].
+      rewrite create_parents_eq. cbn [negb].
       rewrite run_steps_app. unfold s. rewrite parents_refines by auto. fold s.
       set (s0 := after_parents s (parents_of b) t).
       destruct (create_mailbox_row s0 b t) as [[s1 nid]|] eqn:Cr; [|reflexivity].
-      unfold run_steps. cbn [fold_left]. rewrite exec_ins_mailbox by (rewrite ready_with_st; auto).
-      cbn [d_st with_st]. rewrite Cr. cbn [option_map fst opt_st exec d_st with_st].
+      rewrite run_steps_app.
+      pose proof (create_steps_refines (with_st d s0) b t s1 nid) as X. cbn [d_st with_st] in X.
+      rewrite X; auto. unfold run_steps. cbn [fold_left exec d_st with_st].
       destruct (reparent (set_next s1 nid (mb_next ib)) (mb_id ib) nid); reflexivity.
     + (* RENAME: one transaction, parents included *)
       destruct (find_name s a) as [m|]; [|exact Hid].
       destruct (find_name s b); [exact Hid|].
+      rewrite create_parents_eq. cbn [negb].
       unfold run_steps. cbn [fold_left exec]. rewrite (ready_file_schema d Hr). fold s.
-      destruct (rename_tx7 s (mb_id m) a b (parents_of b) t); [reflexivity|exact Hid].
+      change (rename_tx7 s (mb_id m) a b (parents_of b) t)
+        with (rename_tx (after_parents s (parents_of b) t) (mb_id m) a b).
+      destruct (rename_tx (after_parents s (parents_of b) t) (mb_id m) a b); [reflexivity|exact Hid].
 Qed.
